@@ -305,8 +305,8 @@ class StereoMolGraph(MolGraph):
     def enantiomer(self) -> Self:
         """
         Creates the enantiomer of the StereoMolGraph by inversion of all atom
-        stereocenters. The result can be identical to the molecule itself if
-        no enantiomer exists.
+        stereocenters and all chiral bonds (axes). The result can be identical
+        to the molecule itself if no enantiomer exists.
 
         :return: Enantiomer
         """
@@ -314,6 +314,8 @@ class StereoMolGraph(MolGraph):
         for atom in self.atoms:
             if stereo := self.get_atom_stereo(atom):
                 enantiomer.set_atom_stereo(stereo.invert())
+        for bond, bond_stereo in self._bond_stereo.items():
+            enantiomer._bond_stereo[bond] = bond_stereo.invert()
         return enantiomer
 
     def _to_rdmol(
